@@ -266,7 +266,8 @@ func build(tier string) []*vexp.Scenario {
 	// System.Stop racing the calls (the root is stopping, its children terminate one after the other)
 	for _, b := range []string{"spawn", "tell", "ask", "find", "es", "kill"} {
 		b := b
-		if b == "spawn" {
+		if b == "spawn" || b == "ask" {
+			// (ask: the registration of a System.Ask racing the root's sweep of its pending Asks needs two deviations - fix 02926c2)
 			out = append(out, vexp.Split(6, func() *vexp.Scenario { return scenario([]string{b}, "stopping", []int{0, 1, 2}) })...)
 			continue
 		}
